@@ -27,10 +27,10 @@ namespace Kanidm.Filter
 /-- `filter2idl` never over-claims: for a safe filter the id list it returns approximates the set
 of stored entries satisfying the filter — exactly when `Indexed`, from above when `Partial` or
 `PartialThreshold` — whatever is indexed, whatever the threshold. -/
-theorem filter2idl_sound (S : ValSem) (hS : SubSem S) (w : World) (idx : Idx)
+theorem filter2idl_sound (S : ValSem) (hS : SubSem S) (w : World) (idx : Idx) (rep : Rep)
     (hI : IdxSound w idx) (thres : Nat) (f : F) (hf : f.safe = true) :
-    Approx (sem S w f) (f.idl idx thres) :=
-  (filter2idl_sound_aux S hS w idx hI thres f).1 hf
+    Approx (sem S w f) (f.idl idx rep thres) :=
+  (filter2idl_sound_aux S hS w idx rep hI thres f).1 hf
 
 /-- The executed per-value comparisons are compatible with the trigraph index: every index key of a
 needle is an index key of every value that contains / starts with / ends with it. -/
@@ -82,19 +82,20 @@ theorem getIdentry_indexed_exact (S : ValSem) (w : World) (f : F) (i : IdList)
 
 /-- `search` with any threshold either fails with `ResourceLimit` or returns exactly the stored
 entries that satisfy the filter. -/
-theorem searchT_exact (S : ValSem) (hS : SubSem S) (w : World) (idx : Idx) (hI : IdxSound w idx)
+theorem searchT_exact (S : ValSem) (hS : SubSem S) (w : World) (idx : Idx) (rep : Rep)
+    (hI : IdxSound w idx)
     (thres : Nat) (lim : Limits) (f : F) (hf : f.safe = true) :
-    searchT thres S lim w idx f = resLimit ∨
-      searchT thres S lim w idx f = .ok (answer S w f) := by
-  have hA := filter2idl_sound S hS w idx hI thres f hf
+    searchT thres S lim w idx rep f = resLimit ∨
+      searchT thres S lim w idx rep f = .ok (answer S w f) := by
+  have hA := filter2idl_sound S hS w idx rep hI thres f hf
   unfold searchT
   simp only
   split
   · exact Or.inl rfl
-  · have hfil : (if searchRetest (f.idl idx thres).kind = true then
-          (getIdentry w (f.idl idx thres)).filter (fun id => f.matches S (w.ent id))
-        else getIdentry w (f.idl idx thres)) = answer S w f := by
-      cases hk : (f.idl idx thres).kind <;> simp only [searchRetest, if_true]
+  · have hfil : (if searchRetest (f.idl idx rep thres).kind = true then
+          (getIdentry w (f.idl idx rep thres)).filter (fun id => f.matches S (w.ent id))
+        else getIdentry w (f.idl idx rep thres)) = answer S w f := by
+      cases hk : (f.idl idx rep thres).kind <;> simp only [searchRetest, if_true]
       · exact getIdentry_filter_exact S w f _ hA
       · exact getIdentry_filter_exact S w f _ hA
       · exact getIdentry_filter_exact S w f _ hA
@@ -108,22 +109,23 @@ theorem searchT_exact (S : ValSem) (hS : SubSem S) (w : World) (idx : Idx) (hI :
 /-- **The property for safe filters**: `Backend::search` either fails with an explicit error or
 returns exactly the stored entries satisfying the filter — for every database, every index
 layout whose tables mirror the entries, every slope annotation and every limit. -/
-theorem search_exact_partial (S : ValSem) (hS : SubSem S) (w : World) (idx : Idx)
+theorem search_exact_partial (S : ValSem) (hS : SubSem S) (w : World) (idx : Idx) (rep : Rep)
     (hI : IdxSound w idx) (lim : Limits) (f : F) (hf : f.safe = true) :
-    search S lim w idx f = resLimit ∨ search S lim w idx f = .ok (answer S w f) :=
-  searchT_exact S hS w idx hI thresSearch lim f hf
+    search S lim w idx rep f = resLimit ∨ search S lim w idx rep f = .ok (answer S w f) :=
+  searchT_exact S hS w idx rep hI thresSearch lim f hf
 
-theorem existsT_exact (S : ValSem) (hS : SubSem S) (w : World) (idx : Idx) (hI : IdxSound w idx)
+theorem existsT_exact (S : ValSem) (hS : SubSem S) (w : World) (idx : Idx) (rep : Rep)
+    (hI : IdxSound w idx)
     (thres : Nat) (lim : Limits) (f : F) (hf : f.safe = true) :
-    existsT thres S lim w idx f = resLimit ∨
-      existsT thres S lim w idx f = .ok (!(answer S w f).isEmpty) := by
-  have hA := filter2idl_sound S hS w idx hI thres f hf
+    existsT thres S lim w idx rep f = resLimit ∨
+      existsT thres S lim w idx rep f = .ok (!(answer S w f).isEmpty) := by
+  have hA := filter2idl_sound S hS w idx rep hI thres f hf
   unfold existsT
   simp only
   split
   · exact Or.inl rfl
   · refine Or.inr ?_
-    cases hk : (f.idl idx thres).kind <;> simp only [existsRetest, if_true]
+    cases hk : (f.idl idx rep thres).kind <;> simp only [existsRetest, if_true]
     · rw [getIdentry_filter_exact S w f _ hA]
     · rw [getIdentry_filter_exact S w f _ hA]
     · rw [getIdentry_filter_exact S w f _ hA]
@@ -132,7 +134,7 @@ theorem existsT_exact (S : ValSem) (hS : SubSem S) (w : World) (idx : Idx) (hI :
       -- an `Indexed` list is empty iff the answer is
       have hx := hA
       simp only [Approx, hk] at hx
-      cases hi : (f.idl idx thres).ids with
+      cases hi : (f.idl idx rep thres).ids with
       | nil =>
         cases ha : answer S w f with
         | nil => rfl
@@ -151,11 +153,11 @@ theorem existsT_exact (S : ValSem) (hS : SubSem S) (w : World) (idx : Idx) (hI :
 
 /-- `Backend::exists` either fails with an explicit error or answers whether some stored entry
 satisfies the filter. -/
-theorem exists_exact_partial (S : ValSem) (hS : SubSem S) (w : World) (idx : Idx)
+theorem exists_exact_partial (S : ValSem) (hS : SubSem S) (w : World) (idx : Idx) (rep : Rep)
     (hI : IdxSound w idx) (lim : Limits) (f : F) (hf : f.safe = true) :
-    «exists» S lim w idx f = resLimit ∨
-      «exists» S lim w idx f = .ok (!(answer S w f).isEmpty) :=
-  existsT_exact S hS w idx hI thresExists lim f hf
+    «exists» S lim w idx rep f = resLimit ∨
+      «exists» S lim w idx rep f = .ok (!(answer S w f).isEmpty) :=
+  existsT_exact S hS w idx rep hI thresExists lim f hf
 
 /-! ## 3. the answer does not depend on the layout, the statistics, the rewriting -/
 
@@ -164,13 +166,13 @@ forms of a filter that mean the same on every entry (different slopes, different
 different nesting — what `resolve_idx`/`optimise` and a stale resolve cache may produce, see C02),
 two thresholds: whenever both searches succeed they return the same list. -/
 theorem search_layout_independent (S : ValSem) (hS : SubSem S) (w : World)
-    (idx₁ idx₂ : Idx) (h₁ : IdxSound w idx₁) (h₂ : IdxSound w idx₂)
+    (idx₁ idx₂ : Idx) (rep₁ rep₂ : Rep) (h₁ : IdxSound w idx₁) (h₂ : IdxSound w idx₂)
     (t₁ t₂ : Nat) (lim : Limits) (f₁ f₂ : F) (hf₁ : f₁.safe = true) (hf₂ : f₂.safe = true)
     (hsame : ∀ e, f₁.matches S e = f₂.matches S e) (r₁ r₂ : List Nat)
-    (hr₁ : searchT t₁ S lim w idx₁ f₁ = .ok r₁) (hr₂ : searchT t₂ S lim w idx₂ f₂ = .ok r₂) :
+    (hr₁ : searchT t₁ S lim w idx₁ rep₁ f₁ = .ok r₁) (hr₂ : searchT t₂ S lim w idx₂ rep₂ f₂ = .ok r₂) :
     r₁ = r₂ := by
-  have e1 := searchT_exact S hS w idx₁ h₁ t₁ lim f₁ hf₁
-  have e2 := searchT_exact S hS w idx₂ h₂ t₂ lim f₂ hf₂
+  have e1 := searchT_exact S hS w idx₁ rep₁ h₁ t₁ lim f₁ hf₁
+  have e2 := searchT_exact S hS w idx₂ rep₂ h₂ t₂ lim f₂ hf₂
   rw [hr₁] at e1
   rw [hr₂] at e2
   rcases e1 with e1 | e1
@@ -192,7 +194,7 @@ sort procedures that merely permute, search two layouts with two thresholds: whe
 searches succeed they return the same list. (Composition with C02's `resolveIdx_preserves` and
 `optimise_preserves`.) -/
 theorem search_resolution_independent (S : ValSem) (hS : SubSem S) (w : World)
-    (idx₁ idx₂ : Idx) (h₁ : IdxSound w idx₁) (h₂ : IdxSound w idx₂)
+    (idx₁ idx₂ : Idx) (rep₁ rep₂ : Rep) (h₁ : IdxSound w idx₁) (h₂ : IdxSound w idx₂)
     (c : AttrConsts) (self : Val) (m₁ m₂ : Nat → IType → Option Nat)
     (sa₁ sd₁ sa₂ sd₂ : List F → List F)
     (hp₁ : IsPerm sa₁) (hq₁ : IsPerm sd₁) (hp₂ : IsPerm sa₂) (hq₂ : IsPerm sd₂)
@@ -200,10 +202,10 @@ theorem search_resolution_independent (S : ValSem) (hS : SubSem S) (w : World)
     (hg₂ : fc.resolveIdx c self m₂ = some g₂)
     (hf₁ : (g₁.optimise sa₁ sd₁).safe = true) (hf₂ : (g₂.optimise sa₂ sd₂).safe = true)
     (t₁ t₂ : Nat) (lim : Limits) (r₁ r₂ : List Nat)
-    (hr₁ : searchT t₁ S lim w idx₁ (g₁.optimise sa₁ sd₁) = .ok r₁)
-    (hr₂ : searchT t₂ S lim w idx₂ (g₂.optimise sa₂ sd₂) = .ok r₂) :
+    (hr₁ : searchT t₁ S lim w idx₁ rep₁ (g₁.optimise sa₁ sd₁) = .ok r₁)
+    (hr₂ : searchT t₂ S lim w idx₂ rep₂ (g₂.optimise sa₂ sd₂) = .ok r₂) :
     r₁ = r₂ := by
-  refine search_layout_independent S hS w idx₁ idx₂ h₁ h₂ t₁ t₂ lim _ _ hf₁ hf₂ ?_ r₁ r₂ hr₁ hr₂
+  refine search_layout_independent S hS w idx₁ idx₂ rep₁ rep₂ h₁ h₂ t₁ t₂ lim _ _ hf₁ hf₂ ?_ r₁ r₂ hr₁ hr₂
   intro e
   rw [optimise_preserves S e sa₁ sd₁ hp₁ hq₁, optimise_preserves S e sa₂ sd₂ hp₂ hq₂,
     resolveIdx_preserves S e c self m₁ fc g₁ hg₁, resolveIdx_preserves S e c self m₂ fc g₂ hg₂]
@@ -248,9 +250,13 @@ instance decEqExcept {ε α : Type} [DecidableEq ε] [DecidableEq α] : Decidabl
 /-- The property at full strength: every plain filter (nested And / Or / Not over equality,
 substring, presence, ordering terms) — no guardedness condition. -/
 def search_exact_full : Prop :=
-  ∀ (S : ValSem), SubSem S → ∀ (w : World) (idx : Idx), IdxSound w idx →
+  ∀ (S : ValSem), SubSem S → ∀ (w : World) (idx : Idx) (rep : Rep), IdxSound w idx →
     ∀ (lim : Limits) (f : F), f.plain = true →
-      search S lim w idx f = resLimit ∨ search S lim w idx f = .ok (answer S w f)
+      search S lim w idx rep f = resLimit ∨ search S lim w idx rep f = .ok (answer S w f)
+
+/-- every stored id set sparse / every stored id set compressed -/
+def noRep : Rep := fun _ _ _ => false
+def allRep : Rep := fun _ _ _ => true
 
 /-- the D1 witness database: three entries, attribute 0 holds `ga`, `gb`, `gc` -/
 def d1World : World where
@@ -265,12 +271,12 @@ def d1Lim : Limits := ⟨true, 1000, 1000⟩
 
 /-- with attribute 0 equality-indexed the search returns `[1]` … -/
 theorem d1_indexed :
-    search ValSem.std d1Lim d1World (idxOf d1World (fun _ _ => true)) d1Filter = .ok [1] := by
+    search ValSem.std d1Lim d1World (idxOf d1World (fun _ _ => true)) noRep d1Filter = .ok [1] := by
   decide +kernel
 
 /-- … and with nothing indexed (the same filter resolved without slopes) `[1, 3]` -/
 theorem d1_unindexed :
-    search ValSem.std d1Lim d1World (idxOf d1World (fun _ _ => false))
+    search ValSem.std d1Lim d1World (idxOf d1World (fun _ _ => false)) noRep
       (.or [.eq 0 (.str [1]) none, .andnot (.eq 0 (.str [2]) none) none] none) = .ok [1, 3] := by
   decide +kernel
 
@@ -279,7 +285,7 @@ theorem d1_answer : answer ValSem.std d1World d1Filter = [1, 3] := by decide +ke
 /-- **D1**: the unguarded NOT makes the full statement false. -/
 theorem search_exact_full_false : ¬ search_exact_full := by
   intro h
-  have := h ValSem.std subSem_std d1World (idxOf d1World (fun _ _ => true))
+  have := h ValSem.std subSem_std d1World (idxOf d1World (fun _ _ => true)) noRep
     (idxOf_sound _ _) d1Lim d1Filter (by decide +kernel)
   rw [d1_indexed, d1_answer] at this
   rcases this with h | h
@@ -293,7 +299,7 @@ def f2Filter : F := .cnt 0 (.str []) (some 1)
 
 /-- with the substring table present `filter2idl_sub` answers `Indexed(∅)` … -/
 theorem f2_indexed :
-    search ValSem.std d1Lim d1World (idxOf d1World (fun _ _ => true)) f2Filter = .ok [] := by
+    search ValSem.std d1Lim d1World (idxOf d1World (fun _ _ => true)) noRep f2Filter = .ok [] := by
   decide +kernel
 
 /-- … while every stored value contains the empty string -/
@@ -301,7 +307,7 @@ theorem f2_answer : answer ValSem.std d1World f2Filter = [1, 2, 3] := by decide 
 
 /-- … which is what the same search returns without the table -/
 theorem f2_unindexed :
-    search ValSem.std d1Lim d1World (idxOf d1World (fun _ _ => false)) (.cnt 0 (.str []) none)
+    search ValSem.std d1Lim d1World (idxOf d1World (fun _ _ => false)) noRep (.cnt 0 (.str []) none)
       = .ok [1, 2, 3] := by
   decide +kernel
 
@@ -309,7 +315,7 @@ theorem f2_unindexed :
 "indexed substring needles are non-empty" of `F.safe` cannot be dropped either). -/
 theorem search_exact_full_false_empty_needle : ¬ search_exact_full := by
   intro h
-  have := h ValSem.std subSem_std d1World (idxOf d1World (fun _ _ => true))
+  have := h ValSem.std subSem_std d1World (idxOf d1World (fun _ _ => true)) noRep
     (idxOf_sound _ _) d1Lim f2Filter (by decide +kernel)
   rw [f2_indexed, f2_answer] at this
   rcases this with h | h
@@ -338,16 +344,26 @@ def exFilter : F :=
 example : exFilter.safe = true := by decide +kernel
 example : IdxSound exWorld (idxOf exWorld exCfg) := idxOf_sound _ _
 /-- a non-empty strict subset, reached through a `Partial` candidate set and the re-test -/
-example : search ValSem.std ⟨false, 10, 10⟩ exWorld (idxOf exWorld exCfg) exFilter = .ok [1] := by
+example : search ValSem.std ⟨false, 10, 10⟩ exWorld (idxOf exWorld exCfg) noRep exFilter = .ok [1] := by
   decide +kernel
-example : (exFilter.idl (idxOf exWorld exCfg) 0).kind = .part := by decide +kernel
-example : «exists» ValSem.std ⟨false, 10, 10⟩ exWorld (idxOf exWorld exCfg) exFilter = .ok true := by
+example : (exFilter.idl (idxOf exWorld exCfg) noRep 0).kind = .part := by decide +kernel
+example : «exists» ValSem.std ⟨false, 10, 10⟩ exWorld (idxOf exWorld exCfg) noRep exFilter = .ok true := by
   decide +kernel
 /-- the limit error is reachable: nothing indexed and `unindexed_allow = false` -/
-example : search ValSem.std ⟨false, 10, 10⟩ exWorld (idxOf exWorld (fun _ _ => false))
+example : search ValSem.std ⟨false, 10, 10⟩ exWorld (idxOf exWorld (fun _ _ => false)) noRep
     (.eq 0 (.str [120]) none) = .error .resourceLimit := by decide +kernel
 /-- the threshold early return is reachable -/
-example : (exFilter.idl (idxOf exWorld exCfg) 5).kind = .thres := by decide +kernel
+example : (exFilter.idl (idxOf exWorld exCfg) noRep 5).kind = .thres := by decide +kernel
+
+/-- the representation matters to `below_threshold` only: an empty *compressed* candidate set takes
+the threshold return even at threshold 0, an empty sparse one does not (both are sound) -/
+example :
+    (((F.and [.pres 0 (some 1), .lessThan 1 (.num 7) (some 1), .andnot (.pres 0 (some 1)) none,
+        .andnot (.pres 1 (some 1)) none] none).idl (idxOf exWorld (fun _ _ => true)) allRep 0).kind,
+     ((F.and [.pres 0 (some 1), .lessThan 1 (.num 7) (some 1), .andnot (.pres 0 (some 1)) none,
+        .andnot (.pres 1 (some 1)) none] none).idl (idxOf exWorld (fun _ _ => true)) noRep 0).kind)
+      = (.thres, .part) := by
+  decide +kernel
 
 /-- the same filter before resolution; resolved against "everything indexed with slope 1" and
 against "nothing indexed" it is rewritten differently, yet both searches return the same list -/
@@ -357,10 +373,10 @@ def exFC : FC :=
 
 example :
     ((exFC.resolveIdx ⟨8, 9⟩ (.num 0) (fun _ _ => some 1)).map (fun g =>
-        searchT 0 ValSem.std ⟨true, 10, 10⟩ exWorld (idxOf exWorld (fun _ _ => true))
+        searchT 0 ValSem.std ⟨true, 10, 10⟩ exWorld (idxOf exWorld (fun _ _ => true)) noRep
           (g.optimise sortAsc sortDesc)),
      (exFC.resolveIdx ⟨8, 9⟩ (.num 0) (fun _ _ => none)).map (fun g =>
-        searchT 3 ValSem.std ⟨true, 10, 10⟩ exWorld (idxOf exWorld (fun _ _ => false))
+        searchT 3 ValSem.std ⟨true, 10, 10⟩ exWorld (idxOf exWorld (fun _ _ => false)) allRep
           (g.optimise sortAsc sortDesc)))
       = (some (.ok [1]), some (.ok [1])) := by
   decide +kernel
